@@ -169,9 +169,10 @@ def is_pow2(x):
 def bmtc_spec(m):
     return m if m < 8 else ((m + 1) // 8) * 7
 
-def c17_oracle(gw, line):
+def c17_oracle(gw, line, bm=None):
     """Judge one `query = answer` line of the hook wrappers against the SPECIFICATION predicates
-    of C17 (not against the model).  Returns None or a violation text."""
+    of C17 (not against the model).  Returns None or a violation text.
+    bm: what the implementation's own bucket_mask_to_capacity answered (mask -> capacity) in this run."""
     q, _, r = line.partition(" = ")
     w = q.split()
     r = r.strip()
@@ -187,6 +188,9 @@ def c17_oracle(gw, line):
         usable = bmtc_spec(b - 1)
         if usable < cap:
             return f"capacity_to_buckets({cap}) = {b} buckets hold only {usable} elements"
+        own = (bm or {}).get(b - 1)
+        if own is not None and own < cap:
+            return f"capacity_to_buckets({cap}) = {b} buckets, for which bucket_mask_to_capacity({b - 1}) itself answers only {own}"
         if size >= 1 and b * size < gw and cap < 15:
             return f"capacity_to_buckets({cap}, size {size}) = {b}: table smaller than one group"
         return None
@@ -247,12 +251,17 @@ def check_c17(run):
         open(qp, "w").write("\n".join(qs) + "\n")
         rc = subprocess.run([exe, "arith"], stdin=open(qp), stdout=open(ap, "w"), stderr=subprocess.PIPE)
         answered = 0
+        bm = {}
+        for line in open(ap):
+            mm = re.match(r"bmtc (\d+) = (\d+)\s*$", line)
+            if mm:
+                bm[int(mm.group(1))] = int(mm.group(2))
         for line in open(ap):
             if " = " not in line:
                 continue
             answered += 1
             queries += 1
-            viol = c17_oracle(gw, line.rstrip("\n"))
+            viol = c17_oracle(gw, line.rstrip("\n"), bm)
             if viol:
                 findings.append((v, gw, line.strip(), viol))
         if rc.returncode != 0 or answered < len(qs):
